@@ -96,6 +96,11 @@ def generate(c, registry=REGISTRY):
         state.assume(spec_eval(ctx, ev, state, expr))
     for text, expr in c.parsed('env_assumes'):
         state.assume(spec_eval(ctx, ev, state, expr))
+    for kf in c.known_findings:
+        if kf.get('exclude'):
+            ex_expr = ast.parse(kf['exclude'].strip(), mode='eval').body
+            state.assume(z3.Not(spec_eval(ctx, ev, state, ex_expr)))
+            ctx.notes.append(f"known finding {kf['id']}: proved outside the witness class `{kf['exclude']}`")
     ctx.entry = state.copy()
     ctx.requires_pc = list(state.pc)
     # guard G-V: the pre-condition must be satisfiable (a contradictory `requires` proves anything)
@@ -233,6 +238,22 @@ def _has_quantifier(t, cache):
     return False
 
 
+def _has_nonlinear_mul(t):
+    todo, seen = [t], set()
+    while todo:
+        x = todo.pop()
+        i = x.get_id()
+        if i in seen:
+            continue
+        seen.add(i)
+        if z3.is_app(x):
+            if x.decl().kind() == z3.Z3_OP_MUL and \
+                    sum(1 for c in x.children() if not (z3.is_int_value(c) or z3.is_rational_value(c))) >= 2:
+                return True
+            todo.extend(x.children())
+    return False
+
+
 def _ground_attempt(ob, axioms, timeout_ms):
     hyps = [h for h in list(axioms) + list(ob.hyps) if not _has_quantifier(h, set())]
     if len(hyps) == len(axioms) + len(ob.hyps):
@@ -302,14 +323,33 @@ def _current_generation_attempt(ob, axioms, timeout_ms):
     return s.check() == z3.unsat
 
 
-def solve_one(ob, axioms, timeout_ms=None, want_model=True):
+def solve_one(ob, axioms, timeout_ms=None, want_model=True, first_opts=None):
     """portfolio: z3 default, cvc5, then z3 MBQI-only / E-matching-only / other seed.
     proved = some back end says unsat; refuted = some back end produces a model;
-    otherwise unknown (never reported as a counter-example)"""
+    otherwise unknown (never reported as a counter-example).
+    first_opts (contract ghost['solver_first']): z3 options tried before the portfolio; only an
+    `unsat` answer of that run is used (a proof is a proof under any option set)"""
     timeout_ms = timeout_ms or Z3_TIMEOUT_MS
     t0 = time.time()
     reasons = []
     first = None
+    if first_opts:
+        s0 = _mk_solver(ob, axioms, max(500, timeout_ms * 0.3), first_opts)
+        if s0.check() == z3.unsat:
+            return 'proved', 'z3(contract-opts)', time.time() - t0, None, None
+    # a quantifier-free goal with a product of two unknowns (index bounds of work splitting, ...):
+    # the arithmetic core is tried first on the quantifier-free hypotheses alone
+    try:
+        if not _has_quantifier(ob.goal, set()):
+            if _has_nonlinear_mul(ob.goal):
+                if _ground_attempt(ob, axioms, min(2000, max(500, timeout_ms * 0.2))):
+                    return 'proved', 'z3(ground-hyps)', time.time() - t0, None, None
+            elif any(_has_nonlinear_mul(h) for h in ob.hyps if not _has_quantifier(h, set())):
+                # the product sits in a hypothesis (an invariant): short attempt only
+                if _ground_attempt(ob, axioms, 600):
+                    return 'proved', 'z3(ground-hyps)', time.time() - t0, None, None
+    except z3.Z3Exception:
+        pass
     for n, (label, opts, share) in enumerate(PORTFOLIO):
         s = _mk_solver(ob, axioms, max(500, timeout_ms * share), opts)
         if first is None:
@@ -538,7 +578,8 @@ def verify_function(c, registry=REGISTRY, timeout_ms=None):
     axioms = literal_axioms() + list(ctx.axioms)
     t1 = time.time()
     for ob in ctx.obligations:
-        verdict, backend, dt, model, reason = solve_one(ob, axioms, timeout_ms)
+        verdict, backend, dt, model, reason = solve_one(ob, axioms, timeout_ms,
+                                                        first_opts=c.ghost.get('solver_first'))
         res.obligations.append(dict(id=ob.id, kind=ob.kind, text=ob.text, line=ob.lineno, src=ob.src,
                                     verdict=verdict, backend=backend, time_s=round(dt, 4),
                                     model=model_summary(model, ctx), reason=reason))
